@@ -112,13 +112,14 @@ pub open spec fn bumped(r1: &Reader, r2: &Reader) -> bool {
     &&& same_src(r1, r2)
     &&& r2.current_buffer_byte_pos == r1.current_buffer_byte_pos
     &&& r2.current_buffer_byte_len >= r1.current_buffer_byte_len
-    &&& consumed(r2) >= consumed(r1)
+    &&& 0 <= consumed(r1) <= consumed(r2) <= r_n(r2)
     &&& (consumed(r2) > consumed(r1) <==> r2.current_buffer_byte_len > r1.current_buffer_byte_len)
 }
 
 /// what `current_char()` returns in a valid state
 pub open spec fn cur_ok(r: &Reader, c: char) -> bool {
     &&& c == r.current
+    &&& 0 <= consumed(r) <= r_n(r)
     &&& (consumed(r) < r_n(r) ==> c == r.text@[consumed(r)])
     &&& (consumed(r) >= r_n(r) ==> c == '\0')
 }
@@ -214,7 +215,8 @@ pub open spec fn tok_ok(t: LuaTokenData, b: Seq<u8>, base: int) -> bool {
 pub open spec fn tiled(toks: Seq<LuaTokenData>, b: Seq<u8>, base: int, hi: int) -> bool {
     &&& (toks.len() == 0 ==> hi == base)
     &&& (toks.len() > 0 ==> toks[0].range.start_offset == base && tok_end(toks.last()) == hi)
-    &&& (forall|i: int| 0 < i < toks.len() ==> tok_end(toks[i - 1]) == (#[trigger] toks[i]).range.start_offset)
+    &&& (forall|i: int, j: int| 0 <= i && j == i + 1 && j < toks.len()
+            ==> tok_end(#[trigger] toks[i]) == (#[trigger] toks[j]).range.start_offset)
     &&& (forall|i: int| 0 <= i < toks.len() ==> tok_ok(#[trigger] toks[i], b, base))
 }
 
@@ -223,8 +225,10 @@ pub proof fn lemma_tiled_push(toks: Seq<LuaTokenData>, b: Seq<u8>, base: int, hi
     ensures tiled(toks.push(t), b, base, tok_end(t)),
 {
     let n = toks.push(t);
-    assert forall|i: int| 0 < i < n.len() implies tok_end(n[i - 1]) == (#[trigger] n[i]).range.start_offset by {
-        if i < toks.len() { assert(n[i] == toks[i]); assert(n[i - 1] == toks[i - 1]); }
+    assert forall|i: int, j: int| 0 <= i && j == i + 1 && j < n.len()
+        implies tok_end(#[trigger] n[i]) == (#[trigger] n[j]).range.start_offset by {
+        if j < toks.len() { assert(n[i] == toks[i]); assert(n[j] == toks[j]); }
+        else { assert(n[i] == toks[i]); assert(toks[i] == toks.last()); }
     }
     assert forall|i: int| 0 <= i < n.len() implies tok_ok(#[trigger] n[i], b, base) by {
         if i < toks.len() { assert(n[i] == toks[i]); }
@@ -238,7 +242,7 @@ pub open spec fn reset_then_bumped(r1: &Reader, r2: &Reader) -> bool {
     &&& rinv(r2)
     &&& same_src(r1, r2)
     &&& r2.current_buffer_byte_pos == r1.current_buffer_byte_pos + r1.current_buffer_byte_len
-    &&& consumed(r2) >= consumed(r1)
+    &&& 0 <= consumed(r1) <= consumed(r2) <= r_n(r2)
     &&& (consumed(r2) > consumed(r1) <==> r2.current_buffer_byte_len > 0)
 }
 
